@@ -796,14 +796,16 @@ def check_point(case, pt, prev, d, res, k):
         if at >= 0:
             out.append(prob("sentinel", "%s: bytes of the clobbered predecessor survive at offset %d of %d (header size %d, begins %s)" % (
                 w, at, len(raw), hsize, begins), clobber=case["clobber"]))
-        bound = hsize
+        # nothing is ever written beyond the largest header of the history, the fixed-size variables and the last record;
+        # a file without variables is truncated to its header at close (ncmpio_close.c)
+        bound = max(hsize, (prev or {}).get("maxh", 0)) if cf.vars else hsize
         for i in fixed:
             bound = max(bound, cf.vars[i].begin + cf.var_vsize_computed(cf.vars[i]))
         if rec and cf.numrecs:
             bound = max(bound, first_rec + cf.numrecs * cf.recsize())
         if len(raw) > bound:
             out.append(prob("length", "%s: file has %d bytes, the layout implies at most %d" % (w, len(raw), bound), clobber=case["clobber"]))
-    return out, {"begins": begins, "extent": extent, "hext": hext_seen}
+    return out, {"begins": begins, "extent": extent, "hext": hext_seen, "maxh": max(hsize, (prev or {}).get("maxh", 0))}
 
 
 def evaluate(case, b, res, d):
@@ -930,7 +932,7 @@ def case_script(case):
 
 
 def campaign(ctx):
-    n = {"quick": 200, "thorough": 2500}[ctx.tier]
+    n = {"quick": 200, "thorough": 2000}[ctx.tier]
     runner.run_hypothesis(ctx, case_strategy(ctx.tier), runner.guarded(run_case), n)
 
 
